@@ -99,6 +99,11 @@ fn("fold_div_zero_guarded", [("a", "Int")], "Int", "if a > 0 {\n    a\n  } else 
 fn("fold_index_oob_guarded", [("a", "Int")], "Int", 'if a > 0 {\n    a\n  } else {\n    builtin.index_bytearray(#"00", 5)\n  }')
 fn("fold_cmp", [("p", "Bool")], "Bool", 'p && 3 < 5 || builtin.less_than_bytearray(#"00", #"01") && !p')
 fn("fold_cons_range", [("a", "Int")], "ByteArray", 'if a > 0 {\n    builtin.cons_bytearray(65, #"")\n  } else {\n    builtin.cons_bytearray(256, #"")\n  }')
+fn("fold_replicate_too_big", [("a", "Int")], "ByteArray", 'if a > 0 {\n    #""\n  } else {\n    builtin.replicate_byte(10000, 0)\n  }')
+fn("fold_shift_huge", [("a", "Int")], "ByteArray", 'if a > 0 {\n    #""\n  } else {\n    builtin.shift_bytearray(#"00", 18446744073709551616)\n  }')
+fn("fold_rotate_huge", [("a", "Int")], "ByteArray", 'if a > 0 {\n    #""\n  } else {\n    builtin.rotate_bytearray(#"00", -18446744073709551616)\n  }')
+fn("fold_slice_huge", [("a", "Int")], "ByteArray", 'if a > 0 {\n    #""\n  } else {\n    builtin.slice_bytearray(18446744073709551616, 1, #"00")\n  }')
+fn("fold_int_to_bytes", [("a", "Int")], "ByteArray", 'if a > 0 {\n    builtin.integer_to_bytearray(True, 0, 258)\n  } else {\n    builtin.integer_to_bytearray(False, 2, 70000)\n  }')
 fn("fold_data", [("a", "Int")], "Int", "builtin.un_i_data(builtin.i_data(a)) + builtin.un_i_data(builtin.i_data(5))")
 
 print("\n".join(out))
